@@ -242,13 +242,27 @@ CLAIMS = [
                       "invariant (each is argued from the checker's guarantees, not proved). Emitters are infallible by type. LLVM support "
                       "is outside ('where supported').",
     },
+    {
+        "id": "C19",
+        "technique": "static analysis: sibling-agreement rules over typed HIR (tag construction sites share one canonical declaration-index form; the environment builders and their users share one capture list and one product builder), audited arm-by-arm free/bound-variable equations of both IRs",
+        "level_text": "Decides necessary conditions of 'lowering preserves behaviour' that are visible as agreement between two sides of one "
+                      "protocol: all CtorIdx / DtorIdx (constructor value and pattern, destructor send and comatch arm) are the position of "
+                      "the same name in the declaration recorded by the checker's hint; pattern, creation-site value and re-packing value "
+                      "of every closure-like translation derive from one sorted capture list, mapped whole and in order through the same "
+                      "product builder; the free-variable and bound-variable equations of sps and sps_low (52 arms) are the audited ones. "
+                      "Both seeded miscompilations (tags by arm position; one-element environment unboxed on two of three sides) are "
+                      "caught by these rules, as are the hand-made mutants.",
+        "level_note": "NOT decided: observational equality with the interpreter (no executor for lowered code is available offline: the assembly "
+                      "interpreter stops at extern calls), continuation packaging, builtin wiring, product layout. A polymorphic-product "
+                      "layout mismatch reported by the seeding agent (findings/candidates/C19/poly.zy: pack <product:2/3> vs unpack "
+                      "<product:2/2>) could only be read off the IR text, not executed; it is documented, not claimed as a finding.",
+    },
 ]
 
 _PENDING = "check not built yet in this round (static rule designed in DESIGN.md, implementation pending)"
 NOT_APPLICABLE = [
     {"property_id": "C20", "reason": "behavioural equation through a 2800-line type-directed translation; no clause is both visible in the shape of elaborate/monadic/* and a necessary condition of the equation (DESIGN.md C20)"},
-] + [{"property_id": p, "reason": _PENDING} for p in
-     ["C19"]]
+]
 
 NOTES = ("Static analysis only: every verdict is computed from /repo's current working tree by the zyq rustc driver "
          "(facts) and repository-specific rules; nothing executes zydeco. Exit 2 (no VIOLATION line) means the tree could not "
